@@ -2,6 +2,6 @@
 """setup_cmd: nothing is built ahead of time (every check regenerates its encoding from /repo); this only
 verifies that the offline tools the engine needs are present."""
 import shutil, sys
-missing = [t for t in ('cbmc', 'clang++-14', 'clang-14', 'gcc', 'kissat', 'python3') if not shutil.which(t)]
+missing = [t for t in ('cbmc', 'clang++-14', 'clang-14', 'opt-14', 'gcc', 'kissat', 'python3') if not shutil.which(t)]
 if missing: print('missing tools:', missing); sys.exit(1)
 print('tools ok')
